@@ -1014,6 +1014,22 @@ class Module(ABC):
         # Override `comp_index` to just be a consecutive list.
         all_nodes["global_comp_index"] = np.arange(len(all_nodes))
 
+        # Update the groups. They store global compartment indices, which change when
+        # the number of compartments of a branch changes.
+        end_idx = start_idx + number_deleted
+        for group_name, group_inds in self.base.groups.items():
+            group_inds = np.asarray(group_inds)
+            in_branch = (group_inds >= start_idx) & (group_inds < end_idx)
+            is_after = group_inds >= end_idx
+            new_group_inds = group_inds + is_after * (ncomp - number_deleted)
+            new_group_inds = new_group_inds[~in_branch]
+            if np.any(in_branch):
+                # The branch remains a member of the group.
+                new_group_inds = np.concatenate(
+                    [new_group_inds, np.arange(start_idx, start_idx + ncomp)]
+                )
+            self.base.groups[group_name] = np.sort(new_group_inds).astype(int)
+
         # Update compartment structure arguments.
         ncomp_per_branch[branch_indices] = ncomp
         ncomp = int(np.max(ncomp_per_branch))
